@@ -5,7 +5,7 @@
 # feature; the repository's own tests pass; demo fails with the change.
 set -u
 prop=$1; wt=$2; k=$3
-src="$wt/MUTANT/$k"; id="$prop-s$k"; dst="/verif/seeded/$id"
+src="$wt/MUTANT/$k"; id="$prop-s$((k+${4:-0}))"; dst="/verif/seeded/$id"
 [ -f "$src/patch.diff" ] && [ -f "$src/demo.rs" ] || { echo "$id: missing files"; exit 1; }
 cd "$wt" || exit 1
 git checkout -q -- . ; rm -rf tests
